@@ -1,5 +1,5 @@
 From Xdis Require Import Base.Prelude Base.Result Base.OpTable Base.Bits Model.Instr Spec.Dis Model.Resolve Gen.Opcodes Gen.RefOpcodes
-  Proofs.InstrProofs Proofs.C02Tables.
+  Model.ResolveChecks Proofs.InstrProofs Proofs.C02Tables.
 
 (* a free variable is never also a local: then the two constructions of the merged table coincide *)
 Lemma localsplus_eq tb : forallb (fun f => negb (zmem f (tb_vars tb))) (tb_frees tb) = true ->
@@ -11,13 +11,6 @@ Proof.
 Qed.
 
 (* per-opcode plans agree, for the 9 tables with an installed interpreter *)
-(* wherever CPython's dis resolves the operand, xdis resolves it the same way *)
-Definition plan_ok (T : optable) (R : reftable) (op : Z) : bool :=
-  match spec_plan R op with PlNone => true | p => plan_eqb (model_plan T op) p end.
-Definition plans_ok (T : optable) (R : reftable) : bool := forallb (plan_ok T R) ops256.
-Definition plan_failures (T : optable) (R : reftable) : list (Z * string) :=
-  map (fun op => (op, opname_of T op)) (filter (fun op => negb (plan_ok T R op)) ops256).
-
 Lemma oracle_plans_ok : forallb (fun '(T, R) => plans_ok T R) oracle_pairs = true.
 Proof. vm_compute. reflexivity. Qed.
 
@@ -34,12 +27,6 @@ Proof.
   destruct (spec_plan R op) eqn:E; try congruence; apply plan_eqb_eq in Hp; rewrite Hp; reflexivity.
 Qed.
 
-(* comparison-operator spellings: where xdis's cmp_op differs from the interpreter's *)
-Fixpoint cmp_diff (a b : list string) (i : Z) : list Z :=
-  match a, b with
-  | x :: a', y :: b' => if String.eqb x y then cmp_diff a' b' (i + 1) else i :: cmp_diff a' b' (i + 1)
-  | _, _ => []
-  end.
 Definition cmp_spelling_diffs : list (string * list Z) := map (fun '(T, R) => (t_name T, cmp_diff (t_cmp_op T) (r_cmp_op R) 0)) oracle_pairs.
 
 (* the only spelling differences are the three documented ones (known finding D16) *)
